@@ -385,7 +385,7 @@ def harnesses(tier):
     return [
         ("H1.step", h1_step, h1_cases(tier)),
         ("H1u.unitary", h1u_unitary, h1u_cases(tier)),
-        ("H2.program", h2_program, h2_cases(tier)),
+        ("H2.program", h2_program, h2_cases(tier), dict(max_paths=60000, max_seconds=3000)),
         ("H3.ranges", h3_ranges, h3_cases(tier)),
         # the same identities once more with z3 deciding the un-normalised expressions
         ("H1u.unitary.raw", h1u_unitary, h1u_cases(tier), dict(raw=True)),
